@@ -93,7 +93,7 @@ def effectTable : List FnRow := [
   ⟨[], [82, 136]⟩,  -- 79 astral.moon.moonrise
   ⟨[], [82, 136]⟩,  -- 80 astral.moon.moonset
   ⟨[], [67, 136]⟩,  -- 81 astral.moon.phase
-  ⟨[], [28, 76, 78, 83, 92]⟩,  -- 82 astral.moon.riseset
+  ⟨[], [28, 70, 76, 78, 83, 92]⟩,  -- 82 astral.moon.riseset
   ⟨[], []⟩,  -- 83 astral.moon.sgn
   ⟨[], []⟩,  -- 84 astral.moon.sun_mean_anomoly
   ⟨[], []⟩,  -- 85 astral.moon.sun_mean_longitude
